@@ -72,6 +72,11 @@ class StandardGeometry(BaseGeometry):
             t1 = (-b + np.sqrt(d)) / (2 * a)
             t2 = (-b - np.sqrt(d)) / (2 * a)
 
+        # a ray that already lies on the surface (coincident surfaces) has
+        # t = 0 up to rounding, of either sign: it is not "behind" the ray
+        t1 = np.where(np.abs(t1) < 1e-10, 0.0, t1)
+        t2 = np.where(np.abs(t2) < 1e-10, 0.0, t2)
+
         # intersections "behind" ray, set to inf to ignore
         t1[t1 < 0] = np.inf
         t2[t2 < 0] = np.inf
